@@ -133,10 +133,10 @@ fn close_scenario(flavor: Flavor, scen: u64, seed: u64) -> (Findings, Value) {
         }
     };
     let mut ids = seed << 20;
-    // a seventh, directed scenario replaces every other "close-idle": the closer is parked between its
+    // the seventh scenario is directed: the closer is parked between its
     // clear() and its stop signal while another thread's insert is admitted, so that entries are resident
     // when close() returns
-    let scen = if scen % 12 == 6 && flavor.gates_ok() { 6 } else { scen % 6 };
+    let scen = if scen % 7 == 6 && !flavor.gates_ok() { 0 } else { scen % 7 };
     let name = ["close-idle", "close-after-history", "concurrent-closers", "operations-racing-close", "drop-without-close", "close-with-pending-buffer", "insert-admitted-inside-close"][scen as usize];
     phase("ops");
     match scen {
@@ -626,7 +626,7 @@ fn run_scenarios(ctx: &Ctx, rng: Rng, rep: &mut Report, kind: &str, count: u64, 
         }
         let mut r = rng.derive(i);
         let seed = r.next() >> 20;
-        let flavor = flavors[(i / 6 % flavors.len() as u64) as usize];
+        let flavor = flavors[(i / if kind == "close" { 7 } else { 6 } % flavors.len() as u64) as usize];
         let flavor = if kind == "grid" { flavors[(i % flavors.len() as u64) as usize] } else { flavor };
         let (k2, g2) = (kind.to_string(), grid.get(i as usize).cloned());
         let sup = supervised(kind, watchdog, move || match k2.as_str() {
